@@ -98,11 +98,27 @@ def extract(repo):
         and kw.count("parser.assert_and_consume_keyword(Keyword::Interface)") == 2
         and kw.count("parser.assert_and_consume_keyword(Keyword::Class)") == 2
         and kw.count("matches!(parser.peek().1, TokenContent::Keyword(Keyword::Interface))") == 2)
-    # 3b. `parse_statement` (dispatched on `let` only) consumes the `let`
-    stmt = fn_body(src, "pub(super) fn parse_statement(parser: &mut super::SourceParser)", "parse_statement")
-    facts["statementConsumesLet"] = (assert_consumes
-        and bool(re.match(r"\s*let \(start_loc, mut concrete_comments\) = parser\.assert_and_consume_keyword\(Keyword::Let\);", stmt))
-        and bool(re.search(r"Token\(_, TokenContent::Keyword\(Keyword::Let\)\) => \{\s*statements\.push\(parse_statement\(parser\)\);", loop)))
+    # 3b. the statement parser the block loop dispatches on `let` consumes the `let` first.  Robust against
+    #     renames / delegation: take whatever `parse_*` function the `Keyword::Let` arm calls, follow leading
+    #     delegations, and require that the first thing it does with the parser is
+    #     `assert_and_consume_keyword(Keyword::Let)`.
+    let_arm = block_after(loop, "Token(_, TokenContent::Keyword(Keyword::Let)) =>", "parse_block `let` arm")
+    m = re.search(r"\b(parse_\w+)\(\s*parser\b", let_arm)
+    if not m:
+        raise Shape("parse_block: the `let` arm no longer calls a statement parser")
+
+    def first_action(fn_name, depth=0):
+        mm = re.search(r"fn " + fn_name + r"\(", src)
+        if not mm or depth > 3:
+            raise Shape(f"statement parser `{fn_name}` not found")
+        body = fn_body(src[mm.start():], "fn " + fn_name + "(", fn_name)
+        k = body.find("parser")
+        head = body[:k + 200]
+        d = re.search(r"\b(parse_\w+)\(\s*parser\b", head)
+        if d and d.start() < k:            # `parser` first appears as the argument of a delegated call
+            return first_action(d.group(1), depth + 1)
+        return body[k:k + 80]
+    facts["statementConsumesLet"] = assert_consumes and first_action(m.group(1)).startswith("parser.assert_and_consume_keyword(Keyword::Let)")
     # 4. class-member loop: `while let Keyword(Function | Method | Private) = peek { parse member }`;
     #    the member parser consumes the keyword it was dispatched on
     cls = fn_body(src, "pub(super) fn parse_class(", "parse_class")
